@@ -164,6 +164,16 @@ func init() {
 			k := e.ints("k", kn, true, e.perm(kn))
 			forward := e.c.Fl[0]%2 == 0
 			chk := m > 0 && n > 0
+			// k is documented as the permutation to apply: an entry outside [0,len(k))
+			// or a repeated entry is not a permutation.
+			if e.at("kElement", chk) {
+				k.s[e.g.Intn(kn)] = []int{-1, kn}[e.c.Bad]
+			}
+			if e.at("kDuplicate", chk && kn >= 2) {
+				i := e.g.Intn(kn)
+				j := (i + 1 + e.g.Intn(kn-1)) % kn
+				k.s[i] = k.s[j]
+			}
 			e.run(func() {
 				if name == "Dlapmt" {
 					impl.Dlapmt(forward, e.fdim("m", m), e.fdim("n", n), fs(e, "shortX", x, chk), e.fld("ldx", ldx, max(1, n)), fx(e, "K", k, chk))
